@@ -135,4 +135,5 @@ if __name__ == "__main__":
         ap = argparse.ArgumentParser(); ap.add_argument("--tree"); setup(ap.parse_args().tree)
         child()
     else:
-        main()
+        from common import run_main
+        run_main(main, "C17")
